@@ -9,13 +9,13 @@ import Depccg.Proofs.SearchLemmas
 namespace Depccg.SearchProps
 open Depccg Search
 
-/-- the driver's `pick` is admissible -/
+/-- the simplest agenda (`pickFirstMax`) is admissible -/
 theorem pickFirstMax_ok : PickOK Search.pickFirstMax := pickFirstMax_PickOK
 
 /-- the results are the goal items of the final state -/
 theorem mem_results {pick : Pick} {g : Grammar} {s : Sent} {cfg : Cfg} {r : Item}
     (h : r ∈ (runWith pick g s cfg).results) :
-    r ∈ (loop pick g s cfg cfg.maxStep (init s cfg)).goal :=
+    r ∈ (loop pick g s cfg cfg.maxStep (init pick s cfg)).goal :=
   (sortDesc_perm _).mem_iff.1 h
 
 theorem results_finOK {pick : Pick} {g : Grammar} {s : Sent} {cfg : Cfg} (hp : PickOK pick) {r : Item}
@@ -139,13 +139,14 @@ example : (run g s cfg).steps = 8 := by decide
 example : (run g s { cfg with nbest := 1 }).results.map (fun r => (r.d, r.prio)) =
     [(.bin 2 0 false (.un 0 0 (.leaf 0 3)) (.leaf 1 1), 17)] := by decide
 
-/-- the general theorems apply to this run -/
-example : ∀ r ∈ (run g s cfg).results, LicensedRoot g s cfg r.d ∧ r.prio = modelScore s cfg r.d :=
-  fun r hr => ⟨(returned_valid _ g s cfg pickFirstMax_ok r hr).1,
-    score_accounting _ g s cfg pickFirstMax_ok r hr⟩
+/-- the general theorems apply to the run with any admissible agenda, e.g. `pickFirstMax` -/
+example : ∀ r ∈ (runWith pickFirstMax g s cfg).results,
+    LicensedRoot g s cfg r.d ∧ r.prio = modelScore s cfg r.d :=
+  fun r hr => ⟨(returned_valid pickFirstMax g s cfg pickFirstMax_ok r hr).1,
+    score_accounting pickFirstMax g s cfg pickFirstMax_ok r hr⟩
 
-example : ((run g s cfg).popped.map Item.prio).Pairwise (· ≥ ·) :=
-  pops_nonincreasing _ g s cfg pickFirstMax_ok sentOK (by decide)
+example : ((runWith pickFirstMax g s cfg).popped.map Item.prio).Pairwise (· ≥ ·) :=
+  pops_nonincreasing pickFirstMax g s cfg pickFirstMax_ok sentOK (by decide)
 
 end Demo
 
